@@ -42,3 +42,4 @@ func verifFSDir() string
 func verifCrashed() bool
 func verifNative() bool
 func vfsStore(name string, b []byte, store func(name string, b []byte) error) (err error, crashed bool)
+func verifBoundOr(name string, def int) int
